@@ -71,10 +71,11 @@ fn c01_o2_shallow_and_hot_sound() {
     }
     assert!(header.revisions.changed_at.as_usize() == changed_at);
     assert!(header.revisions.durability == d);
-    kani::cover!(res == ShallowUpdate::HigherDurability && v < now);
-    kani::cover!(res == ShallowUpdate::No);
-    kani::cover!(matches!(hot, Some(VerifyResult::Unchanged { .. })));
-    kani::cover!(matches!(hot, Some(VerifyResult::Changed)));
+    // input-space witnesses (see c01_o4_backdate_sound)
+    kani::cover!(v < now && lc <= v && is_final && changed_at <= rev);
+    kani::cover!(v < now && lc > v);
+    kani::cover!((v == now || lc <= v) && is_final && changed_at > rev);
+    kani::cover!(!is_final);
     std::mem::forget(header);
     std::mem::forget(zalsa);
 }
@@ -166,9 +167,9 @@ fn history_then_shallow(n: usize, d: Durability, untracked: bool) -> (bool, bool
 #[kani::unwind(5)]
 #[kani::stub(real_catch_unwind, stub_catch_unwind)]
 fn c02_o3_history_2() {
-    let (hit, yes) = history_then_shallow(2, any_durability(), false);
-    kani::cover!(hit && !yes);
-    kani::cover!(!hit && yes);
+    let (hit, _yes) = history_then_shallow(2, any_durability(), false);
+    kani::cover!(hit);
+    kani::cover!(!hit);
 }
 
 // @verif prop=C02,C03,C04 obl=O3 tier=thorough bounds="as c02_o3_history_2 with exactly 3 later revisions"
@@ -178,9 +179,9 @@ fn c02_o3_history_2() {
 #[kani::unwind(6)]
 #[kani::stub(real_catch_unwind, stub_catch_unwind)]
 fn c02_o3_history_3() {
-    let (hit, yes) = history_then_shallow(3, any_durability(), false);
-    kani::cover!(hit && !yes);
-    kani::cover!(!hit && yes);
+    let (hit, _yes) = history_then_shallow(3, any_durability(), false);
+    kani::cover!(hit);
+    kani::cover!(!hit);
 }
 
 // @verif prop=C02,C03,C04 obl=O3 tier=quick bounds="as c02_o3_history_2 with exactly 1 later revision"
@@ -190,9 +191,9 @@ fn c02_o3_history_3() {
 #[kani::unwind(4)]
 #[kani::stub(real_catch_unwind, stub_catch_unwind)]
 fn c02_o3_history_1() {
-    let (hit, yes) = history_then_shallow(1, any_durability(), false);
-    kani::cover!(hit && !yes);
-    kani::cover!(!hit && yes);
+    let (hit, _yes) = history_then_shallow(1, any_durability(), false);
+    kani::cover!(hit);
+    kani::cover!(!hit);
 }
 
 // @verif prop=C04,C02 obl=O2 tier=quick bounds="untracked memo (durability LOW, origin DerivedUntracked); 1 or 2 later revisions with optional writes of any durability; arbitrary INV start state"
@@ -317,9 +318,9 @@ fn verify_memo_over_fields(n: usize) {
         assert!(!unchanged_since_v, "C03: a memo was invalidated although none of the fields it read was written since it was verified");
         assert!(header.verified_at.load().as_usize() == v, "C01: verified_at modified although verification failed");
     }
-    kani::cover!(ok && v < now);
-    kani::cover!(!ok);
-    kani::cover!(ok && v < now && dur_index(md) == 0);
+    kani::cover!(unchanged_since_v && v < now);
+    kani::cover!(!unchanged_since_v);
+    kani::cover!(unchanged_since_v && v < now && dur_index(md) == 0);
     std::mem::forget(guard);
     std::mem::forget(home);
     std::mem::forget(local);
@@ -458,9 +459,9 @@ fn c20_o6_provisional_needs_head_of_same_revision() {
     } else {
         assert!(part.may_be_provisional());
     }
-    kani::cover!(ok);
-    kani::cover!(!ok && head_final && head_v > part_v);
-    kani::cover!(!ok && head_final && head_v == part_v);
+    kani::cover!(head_final && head_v == part_v && head_it == seen_it);
+    kani::cover!(head_final && head_v > part_v && head_it == seen_it);
+    kani::cover!(head_final && head_v == part_v && head_it != seen_it);
     std::mem::forget(part);
     std::mem::forget(local);
     std::mem::forget(zalsa);
